@@ -66,6 +66,13 @@ where
     fn poll_next(self: Pin<&mut Self>, cx: &mut Context<'_>) -> Poll<Option<Self::Item>> {
         let mut this = self.project();
 
+        // The stream has ended once every input has ended; in particular a merge of
+        // zero streams ends on the first poll (and never reaches `Indexer::iter`,
+        // which cannot rotate over an empty range).
+        if *this.complete == this.streams.len() {
+            return Poll::Ready(None);
+        }
+
         let mut readiness = this.wakers.readiness();
         readiness.set_waker(cx.waker());
 
